@@ -14,16 +14,26 @@ MANIFEST = dict(
          "computation, compose_name, convert_records, the four section getters, encode_domain_name, add_query, "
          "add_record, update_records, update_dname, serialization, and the typed SOA accessor soa_record::init / decode_domain_name / "
          "soa_record::serialize): memory safety of getters and edits on every "
-         "object state, refinement of the four sections under any history of insertions, serialize/re-parse, "
-         "pointer loops / out-of-range pointers rejected. Tied to the code by differential correspondence on random "
-         "and exhaustive edit histories over fresh, reference-encoded (with and without compression) and hostile "
-         "messages under ASan/UBSan, and by the Lean spec oracle evaluated on the implementation's own output.",
+         "object state; refinement of the four sections under any history of insertions, serialize/re-parse and header counts "
+         "for fresh objects, uncompressed reference encodings AND every stored message with name compression that the decidable "
+         "predicate wfMsg accepts (layout of the four sections, every pointer designates a label boundary of a stored name in no "
+         "later section, every name resolves within the caps): pointers_preserved (update_records re-targets exactly the pointers "
+         "whose target moves; every question / owner / data name resolves to the same labels and is read as the same text after ANY "
+         "insertion), sections_refine_wf, reparse_sections_compressed; compose_name sound and complete for RFC 1035 resolutions "
+         "within the caps; pointer loops / out-of-range pointers rejected. Outside wfMsg two witnesses of silently changed names on "
+         "accepted messages (KF-C10-12 forward pointer into a later section, KF-C10-13 pointer into opaque record data). Tied to the "
+         "code by differential correspondence on random and exhaustive edit histories over fresh, reference-encoded (with and "
+         "without compression), hand-assembled compressed (pointer targets at / next to every section offset and 12 octets off, "
+         "pointer chains up to and past the jump cap, 253..259-octet names through pointers, compressed SOA/MX data followed by "
+         "records) and hostile messages under ASan/UBSan, and by the Lean spec oracle evaluated on the implementation's own output "
+         "(for EVERY accepted message that wfMsg accepts the following insertions must extend what the getters showed).",
     note="Trusted: Lean kernel + standard axioms; hand-written model tied by correspondence (harness/c10_dns.cpp); "
          "inet_pton/inet_ntop are external (the generator supplies inet_pton's result, AAAA text is compared as the "
-         "address it parses to); the Python reference encoder in checks/C10.py; generator coverage bounds what the "
-         "tie sees.",
-    technique="Lean 4 proof (representation invariant + refinement over edit histories, fault-explicit safety) "
-              "+ model/impl correspondence + spec oracle",
+         "address it parses to); the Python reference encoder and the hand assembler (class Raw) in checks/C10.py; generator "
+         "coverage bounds what the tie sees. The Lean reference compressor refCompress is not proved to produce well-formed "
+         "messages in general (checked per message by the oracle and on an instance by the kernel).",
+    technique="Lean 4 proof (layout relation + pointer-target invariant + transport of layout / names / views under the "
+              "insertion, refinement over edit histories, fault-explicit safety) + model/impl correspondence + spec oracle",
     design="DESIGN.md §6 C10")
 
 T_A, T_NS, T_CNAME, T_SOA, T_PTR, T_MX, T_TXT, T_AAAA, T_SRV, T_DNAM, T_OPT = 1, 2, 5, 6, 12, 15, 16, 28, 33, 39, 41
@@ -505,6 +515,12 @@ def threshold_case(rng, delta=None):
             w.record("ad", ([], b), T_MX, "mx", (i, ([b"e"], b)))
         else:
             w.record("ad", ([], None), T_PTR, "name", ([b"r"], b))
+    # the same bare pointer as owner of two records with an owner of another form in between (seeded/C10d)
+    for _ in range(2):
+        b = rng.choice([x for x in w.boundaries() if w.exp[x][1] < 30])
+        w.record("ad", ([], b), T_A, "a", bytes([7, 7, 7, 7]))
+        w.record("ad", ([L()], rng.choice([b, None])), T_A, "a", bytes([8, 8, 8, 8]))
+        w.record("ad", ([], b), T_AAAA, "aaaa", bytes(range(16)))
     ok = w.max_jumps <= 31 and w.max_wire <= 255
     global LAST_RAW
     LAST_RAW = w
@@ -896,7 +912,9 @@ def run(chk):
         if not found:
             chk.violation("proof obligation no longer checks: " + p[:1500], ["theorem-or-audit-failure", p[:4000]], nofail=True)
     chk.cov["rule"] = ("cases = (initial message: fresh | reference-encoded without/with/mixed compression | realistic "
-                       "compressed response | malformed | damaged, history of add_query/add_answer/add_authority/"
+                       "compressed response | hand-assembled compressed (pointer targets at and next to every section offset, 12 "
+                       "octets off, pointer chains 1..33, names of 64..300 octets through 1..5 pointers, compressed SOA/MX data "
+                       "followed by records, repeated bare-pointer owners) | malformed | damaged, history of add_query/add_answer/add_authority/"
                        "add_additional with records of types A, AAAA, NS, CNAME, PTR, DNAME, MX, SOA, TXT/opaque, "
                        "re-parse; soa_record(buffer) on reference encodings of SOA data, on every prefix, on buffers without NUL / with the "
                        "NUL only in the second name / with truncated counters / pointers / over-long text, every length 0..40; "
@@ -910,8 +928,11 @@ def run(chk):
         "reference-encoded initial messages whose names need more than 31 pointer jumps are outside the specified "
         "fragment (libtins caps the jumps to defend against loops)",
         "records_data_ below 4 GiB (section offsets are uint32_t) and fewer than 65536 records per section",
-        "compression pointers point backwards (RFC 1035 'prior occurrence'); a pointer that would exceed 14 bits after "
-        "an insertion makes the insertion fail with malformed_packet",
+        "stored messages with name compression: the refinement theorems ask for wfMsg (lean/TinsModel/Dns/Layout.lean: sections "
+        "laid out back to back between the stored offsets, record data shaped as its type demands, every pointer designates a "
+        "label boundary of a question / owner / NS,CNAME,PTR,DNAME,MX,SOA data name in no later section, every name resolves "
+        "within 31 jumps and 255 octets) and for a message below 16 KiB (offsets have 14 bits; a pointer that would exceed them "
+        "makes the insertion fail with malformed_packet)",
         "records_data_.shrink_to_fit() is called by the harness before each observation so that ASan sees accesses "
         "past the end of the data",
     ]
@@ -923,10 +944,16 @@ def run(chk):
 
 
 MODELLED_NOT_PROVED = [
-    "sections_refine / reparse_sections for COMPRESSED initial messages: stated in full (Props.C10.sections_refine_compressed, "
-    "with a Lean reference compressor), evaluated by the kernel on instances, checked by correspondence + oracle on "
-    "compressed reference encodings; proved: memory safety on every input, insertion_is_shift and "
-    "pointers_preserved_partial (resolution preserved along re-targeted paths) for any stored bytes",
+    "sections_refine_compressed in its refCompress form (Props.C10.sections_refine_compressed, a def): proved for every content "
+    "whose compressed reference encoding is accepted, accepted by wfMsg and read back as the content "
+    "(sections_refine_compressed_partial: three decidable facts about the INITIAL message only, evaluated by the kernel on an "
+    "instance and by the oracle on every generated reference encoding); NOT proved: that the Lean reference compressor "
+    "refCompress produces such a message for all contents (suffix-table invariant). Everything about insertions, pointer "
+    "rewriting, getters and re-parse is proved for ALL stored messages that wfMsg accepts (pointers_preserved, sections_refine_wf, "
+    "reparse_sections_compressed)",
+    "stored messages that wfMsg rejects: memory safety, insertion_is_shift and pointers_preserved_partial hold for any stored "
+    "bytes; names can change silently when a pointer designates a later section (KF-C10-12) or does not designate a label "
+    "boundary of a name update_records knows, e.g. points into SRV data (KF-C10-13): names_preserved_all is refuted by a witness",
     "DNS::soa_record setters and the soa_record(resource) path are modelled through soa_record::init only (the data string of "
     "the resource is the buffer); DNS::resource::data(const soa_record&) is serialize() + assign",
     "inet_pton / inet_ntop are parameters of the model",
